@@ -576,6 +576,36 @@ func (t *tester) testCIProof(cs consensus.State, host types.V2FileContractElemen
 	t.b.Count("ci_route2_contracts", 1)
 }
 
+// testCIReuse: see sample. Both proofs are complete and honest with respect to the block ID they name.
+func (t *tester) testCIReuse(cs consensus.State, a types.V2FileContractElement, ea types.ChainIndexElement, bEl types.V2FileContractElement) {
+	proofFor := func(host types.V2FileContractElement, ci types.ChainIndexElement) *types.V2StorageProof {
+		fc := host.V2FileContract
+		data := t.c.Files[fc.FileMerkleRoot]
+		sp := &types.V2StorageProof{ProofIndex: ci}
+		if fc.Filesize > 0 {
+			idx := cs.StorageProofLeafIndex(fc.Filesize, ci.ChainIndex.ID, host.ID)
+			sp.Leaf = refmodel.FileSegment(data, int(idx))
+			for _, h := range refmodel.Proof(refmodel.FileLeaves(data), int(idx)) {
+				sp.Proof = append(sp.Proof, types.Hash256(h))
+			}
+		}
+		return sp
+	}
+	genuine := types.V2FileContractResolution{Parent: a.Copy(), Resolution: proofFor(a, ea.Copy())}
+	if consensus.ValidateV2Transaction(consensus.NewMidState(cs), types.V2Transaction{FileContractResolutions: []types.V2FileContractResolution{genuine}}) != nil {
+		return
+	}
+	forged := ea.Copy()
+	forged.ChainIndex.Height = bEl.V2FileContract.ProofHeight
+	forged.ChainIndex.ID = types.BlockID{0xF0, 0x0D, byte(cs.Index.Height)}
+	second := types.V2FileContractResolution{Parent: bEl.Copy(), Resolution: proofFor(bEl, forged)}
+	alone := consensus.ValidateV2Transaction(consensus.NewMidState(cs), types.V2Transaction{FileContractResolutions: []types.V2FileContractResolution{second}}) == nil
+	t.expect("chainindex", "genuine-id-with-forged-block-id/alone", false, "ValidateV2Transaction/storage-proof", alone)
+	both := consensus.ValidateV2Transaction(consensus.NewMidState(cs), types.V2Transaction{FileContractResolutions: []types.V2FileContractResolution{genuine, second}}) == nil
+	t.expect("chainindex", "genuine-id-with-forged-block-id/behind-a-genuine-proof-in-the-same-transaction", false, "ValidateV2Transaction/storage-proof", both)
+	t.b.Count("ci_reuse_cases", 1)
+}
+
 // otherSE picks the state element of a different tracked element (any kind).
 func (t *tester) otherSE(notIndex uint64) *types.StateElement {
 	s := t.c.S
@@ -642,6 +672,18 @@ func (t *tester) sample(cs consensus.State) {
 		}
 		if pick != nil && cs.Index.Height+1 >= t.c.Net.N.HardforkV2.AllowHeight {
 			t.testCIProof(cs, *pick, s.CIEs[pick.V2FileContract.ProofHeight].Copy())
+			// a second provable contract: its proof rides in the same transaction behind the genuine one and names a
+			// history element that reuses the genuine element's ID with another block ID
+			for _, id := range v2s {
+				e2 := s.V2FCEs[id]
+				fc2 := e2.V2FileContract
+				data2, have := t.c.Files[fc2.FileMerkleRoot]
+				if id == pick.ID || !have || uint64(len(data2)) != fc2.Filesize || fc2.ProofHeight > cs.Index.Height {
+					continue
+				}
+				t.testCIReuse(cs, *pick, s.CIEs[pick.V2FileContract.ProofHeight].Copy(), e2.Copy())
+				break
+			}
 		}
 	}
 
